@@ -443,9 +443,9 @@ int derive_session_event(const void *frame, session_table *table, const uint8_t 
             if (station_count == 0) {
                 acking = true;
             } else {
-                const ethernet_header_t *stations = disc_header->stationList;
+                const ethernet_address_t *stations = disc_header->stationList;
                 for (uint16_t i = 0; i < station_count; i++) {
-                    if (mac_equal(stations[i].source.a, our_mac)) {
+                    if (mac_equal(stations[i].a, our_mac)) {
                         acking = true;
                         break;
                     }
